@@ -49,12 +49,26 @@ def _key_of(arg: Any, mode: str) -> int:
     return int(arg)
 
 
+_FROZEN = False
+
+
+def _freeze_once() -> None:
+    """Move everything that exists so far out of the collector's reach: the full collections made
+    at every retention probe then only look at what the scenario created (0.5 ms instead of 15)."""
+    global _FROZEN
+    if not _FROZEN:
+        gc.collect()
+        gc.freeze()
+        _FROZEN = True
+
+
 def run_scenario(scn: dict, *, maxsize: int = NOMAX, ttl: int = NOTTL, always_cp: bool = False,
                  argmode: str = "plain", eager: bool = False) -> dict:
     ensure_repo_on_path()
     import anyio
     from anyio.functools import lru_cache
 
+    _freeze_once()
     rec = Recorder()
     st: dict[str, Any] = {"nx": 0, "gates": {}, "outcome": {}, "refs": {}, "scopes": {}, "tasks": {},
                           "slot_of": {}, "ncalls": 0, "internal": [], "skipped": 0, "final": None}
@@ -106,7 +120,7 @@ def run_scenario(scn: dict, *, maxsize: int = NOMAX, ttl: int = NOTTL, always_cp
         c, t, k = act["c"], act["t"], act["k"]
         loop = asyncio.get_running_loop()
         if c == "call":
-            if busy(t):   # the run has drifted from the model: use another free slot, or skip
+            if t <= 0 or busy(t):   # random history / the run has drifted from the model: a free slot, or skip
                 free = [s for s in range(1, 5) if not busy(s)]
                 if not free:
                     st["skipped"] += 1
@@ -118,6 +132,9 @@ def run_scenario(scn: dict, *, maxsize: int = NOMAX, ttl: int = NOTTL, always_cp
             st["tasks"][t] = task
             st["slot_of"][id(task)] = t
         elif c in ("ok", "fail"):
+            if k <= 0:   # symbolic: the n-th open gate
+                opened = sorted(x for x, g in st["gates"].items() if not g.is_set())
+                k = opened[(-k) % len(opened)] if opened else 0
             gate = st["gates"].get(k)
             if gate is None or gate.is_set():
                 st["skipped"] += 1
@@ -125,6 +142,9 @@ def run_scenario(scn: dict, *, maxsize: int = NOMAX, ttl: int = NOTTL, always_cp
             st["outcome"][k] = c
             gate.set()
         elif c in ("cancel", "native"):
+            if t <= 0:   # symbolic: the n-th caller in progress
+                inprog = [s for s in range(1, 5) if busy(s)]
+                t = inprog[(-t) % len(inprog)] if inprog else 0
             if not busy(t):
                 st["skipped"] += 1
                 return
